@@ -19,6 +19,12 @@
 //verif:replace@C15e math/rand.New = verifRandNew
 //verif:replace@C15e math/rand.NewSource = verifRandSource
 //verif:replace@C15e (*math/rand.Rand).Intn = verifIntn
+//verif:replace@C01h github.com/mimecast/dtail/internal/ssh.KeyFile = verifKeyFile
+//verif:replace@C01h github.com/mimecast/dtail/internal/ssh.Agent = verifAgent
+//verif:replace@C01h os.Stat = verifNoFile
+//verif:replace@C01h math/rand.New = verifRandNew
+//verif:replace@C01h math/rand.NewSource = verifRandSource
+//verif:replace@C01h (*math/rand.Rand).Intn = verifIntn
 //verif:replace@C18d golang.org/x/crypto/ssh.Dial = verifDial
 //verif:replace@C18d github.com/mimecast/dtail/internal/ssh.KeyFile = verifKeyFile
 //verif:replace@C18d github.com/mimecast/dtail/internal/ssh.Agent = verifAgent
